@@ -346,7 +346,8 @@ pub fn read_aiger(spec: &Spec, b: &[u8]) -> Reading {
     if must_reject.is_some() {
         return Reading::MustReject(must_reject.unwrap());
     }
-    if i + l + o + a + bb + c + j + ff > 100_000 {
+    // (binary files do not list their inputs)
+    if (if binary { 0 } else { i }) + l + o + a + bb + c + j + ff > 100_000 {
         return Reading::Undecided("too many declared entries for the reference reader".into());
     }
     let max_lit = 2 * m + 1;
